@@ -50,6 +50,9 @@ Fixpoint nat_digits_fuel (fuel n : nat) : bytes :=
   end.
 Definition nat_digits (n : nat) : bytes := nat_digits_fuel 20 n.
 
+Fixpoint names_distinct_b (l : list bytes) : bool :=
+  match l with [] => true | x :: r => negb (existsb (bytes_eqb x) r) && names_distinct_b r end.
+
 Fixpoint map_opt {A B} (f : A -> option B) (l : list A) : option (list B) :=
   match l with
   | [] => Some []
@@ -416,6 +419,11 @@ Definition spec (k : kind) : kspec :=
       (SEnum GoverningEquationsTypeName) CxKeep (many KDescr :: [many KUserData])
   end.
 
+(* the name of a kind in scripts and canonical output: label[.fixed name] *)
+Definition kind_name (k : kind) : bytes :=
+  k_label (spec k) ++ match k_fixname (spec k) with Some n => 46 :: n | None => [] end.
+Definition kind_names_distinct : bool := names_distinct_b (map kind_name all_kinds).
+
 (* ---- trees, entities, the reader's mirror -------------------------------------------------------------------------- *)
 Inductive tree := T (nm lbl dt : bytes) (dims : list Z) (data : bytes) (kids : list tree).
 Inductive ent := E (k : kind) (nm : bytes) (v : pval) (kids : list ent).
@@ -763,11 +771,12 @@ Definition add_kids (news : list ent) (e : ent) : option ent :=
       if forallb (fun n => has_slot k (ekind n)) news && names_distinct (map ename (kids ++ news))
       then Some (E k nm v (kids ++ news)) else None
   end.
-(* a container the writer creates on demand *)
+(* a container the writer creates on demand: cgi_get_zcoorGC / "if (zone->zboco == 0)" / "if (zone->nzconn == 0)" create
+   it only when the parent has NO child of that kind yet; otherwise the one with the default name must exist *)
 Definition ensure_kid (k : kind) (nm : bytes) (e : ent) : ent :=
   match e with
   | E k0 nm0 v kids =>
-      if existsb (fun x => kind_eqb (ekind x) k && bytes_eqb (ename x) nm) kids then e
+      if existsb (fun x => kind_eqb (ekind x) k) kids then e
       else E k0 nm0 v (kids ++ [E k nm VNone []])
   end.
 Fixpoint index_named (kids : list ent) (k : kind) (nm : bytes) (i : Z) : Z :=
@@ -802,6 +811,14 @@ Definition all_fns : list (fnid * bytes) :=
    (F_ziter, s "ziter"); (F_simulation_type, s "simulation_type"); (F_gravity, s "gravity"); (F_axisym, s "axisym");
    (F_rotating, s "rotating"); (F_equationset, s "equationset"); (F_governing, s "governing")].
 
+Definition fn_returns_index (f : fnid) : bool :=
+  match f with
+  | F_base | F_zone | F_grid | F_coord | F_section | F_poly_section | F_sol | F_field | F_boco | F_dataset
+  | F_1to1 | F_conn | F_hole | F_family | F_fambc | F_geo | F_part | F_discrete | F_rigid_motion
+  | F_arbitrary_motion => true
+  | _ => false
+  end.
+
 (* one API call: the function, where (index arguments or the cg_goto path), and its value arguments *)
 Record call := mkCall {
   c_fn : fnid; c_at : path; c_name : bytes; c_ints : list Z; c_strs : list bytes;
@@ -835,6 +852,25 @@ Definition zone_idim (root : ent) (p : path) : Z :=
           end
       | _, _ => 0
       end
+  | _ => 0
+  end.
+
+Definition zone_type (root : ent) (p : path) : Z :=
+  match p with
+  | (KBase, b) :: (KZone, z) :: _ =>
+      match get_path [(KBase, b); (KZone, z)] root with
+      | Some (E _ _ _ zk) =>
+          match find (fun e => kind_eqb (ekind e) KZoneType) zk with
+          | Some (E _ _ (VEnum i) _) => i
+          | _ => STRUCTURED
+          end
+      | None => 0
+      end
+  | _ => 0
+  end.
+Definition base_cell (root : ent) (p : path) : Z :=
+  match p with
+  | (KBase, b) :: _ => match get_path [(KBase, b)] root with Some (E _ _ (VInts _ [cd; _]) _) => cd | _ => 0 end
   | _ => 0
   end.
 
@@ -873,12 +909,18 @@ Definition effect_of (root : ent) (cl : call) : option effect :=
       let idim := zone_idim root p in
       Some (mkEff (p ++ [(KZoneBC, 1)]) (Some (KZoneBC, s "ZoneBC"))
                   [E KBC nm (VEnum bct) (ptset_ent ptype idim npnts pnts)] KBC)
-  | F_boco_gridlocation, [loc], [], [] => Some (mkEff p None (loc_kid loc) KGridLoc)
+  | F_boco_gridlocation, [loc], [], [] =>
+      (* cg_boco_gridlocation_write: always writes the node, also for Vertex *)
+      Some (mkEff p None [E KGridLoc (s "GridLocation") (VEnum loc) []] KGridLoc)
   | F_boco_normal, nflag :: nidx, [], arrs =>
-      (* cg_boco_normal_write: InwardNormalList (if any) then InwardNormalIndex *)
+      (* cg_boco_normal_write: InwardNormalList (if NormalListFlag) then InwardNormalIndex (Structured zones only) *)
       Some (mkEff p None
         ((match arrs with a :: _ => if nflag =? 1 then [arr1 KNormalList (s "InwardNormalList") a] else [] | [] => [] end)
-         ++ [E KNormalIndex (s "InwardNormalIndex") (VInts [lenZ nidx] nidx) []]) KNormalIndex)
+         ++ (match nidx with
+             | [] => []
+             | _ => if zone_type root p =? STRUCTURED
+                    then [E KNormalIndex (s "InwardNormalIndex") (VInts [zone_idim root p] nidx) []] else []
+             end)) KNormalIndex)
   | F_dataset, [bct], [], [] => Some (mkEff p None [E KBCDataSet nm (VEnum bct) []] KBCDataSet)
   | F_bcdata, [ty], [], [] =>
       if ty =? 2 then Some (mkEff p None [E KBCDataD (s "DirichletData") VNone []] KBCDataD)
@@ -895,10 +937,11 @@ Definition effect_of (root : ent) (cl : call) : option effect :=
            [E KTransform (s "Transform") (VInts [idim] tr) [];
             E KPointRange (s "PointRange") (VInts [idim; 2] rng) [];
             E KPointRangeDonor (s "PointRangeDonor") (VInts [idim; 2] drng) []]] K1to1)
-  | F_conn, loc :: cty :: ptype :: npnts :: dptype :: ddim :: ndonor :: rest, [donor], [] =>
+  | F_conn, loc :: cty :: ptype :: npnts :: dptype :: dzt :: ndonor :: rest, [donor], [] =>
       (* cg_conn_write: node (donor name); GridConnectivityType; GridLocation (if not Vertex); receiver point set;
-         donor point set (if ndata_donor > 0) *)
+         donor point set (if ndata_donor > 0) with index_dim_donor = cell_dim for a Structured donor, else 1 *)
       let idim := zone_idim root p in
+      let ddim := if dzt =? STRUCTURED then base_cell root p else 1 in
       let np := Z.to_nat (idim * npnts) in
       let pnts := firstn np rest in
       let dpnts := skipn np rest in
@@ -917,7 +960,7 @@ Definition effect_of (root : ent) (cl : call) : option effect :=
       let fix ranges (cnt : nat) (i : Z) (l : list Z) : list ent :=
         match cnt with
         | O => []
-        | S c => E KHoleRange (if i =? 1 then s "PointRange" else s "PointRange" ++ nat_digits (Z.to_nat i))
+        | S c => E KHoleRange (s "PointRange" ++ nat_digits (Z.to_nat i))
                    (VInts [idim; 2] (firstn n l)) [] :: ranges c (i + 1) (skipn n l)
         end in
       Some (mkEff (p ++ [(KZGC, 1)]) (Some (KZGC, s "ZoneGridConnectivity"))
@@ -949,7 +992,9 @@ Definition effect_of (root : ent) (cl : call) : option effect :=
   | F_ordinal, [o], [], [] => Some (mkEff p None [E KOrdinal (s "Ordinal") (VInts [1] [o]) []] KOrdinal)
   | F_user_data, [], [], [] => Some (mkEff p None [E KUserData nm VNone []] KUserData)
   | F_array, [], [], [a] => Some (mkEff p None [arr1 KArray nm a] KArray)
-  | F_rind, rind, [], [] => Some (mkEff p None [E KRind (s "Rind") (VInts [lenZ rind] rind) []] KRind)
+  | F_rind, rind, [], [] =>
+      (* cgi_write_rind: "write Rind only if different from the default (6*0)" *)
+      Some (mkEff p None (if forallb (Z.eqb 0) rind then [] else [E KRind (s "Rind") (VInts [lenZ rind] rind) []]) KRind)
   | F_gridlocation, [loc], [], [] => Some (mkEff p None [E KGridLoc (s "GridLocation") (VEnum loc) []] KGridLoc)
   | F_ptset, ptype :: idim :: npnts :: pnts, [], [] => Some (mkEff p None (ptset_ent ptype idim npnts pnts) KPointList)
   (* ---- tranche 2 *)
@@ -992,7 +1037,9 @@ Definition resolve_container (eff : effect) (root : ent) : option (ent * path) :
       | Some root' =>
           match get_path pp root' with
           | None => None
-          | Some par => Some (root', pp ++ [(k, index_named (ekids par) k nm 1)])
+          | Some par =>
+              let i := index_named (ekids par) k nm 1 in
+              if i =? 0 then None else Some (root', pp ++ [(k, i)])
           end
       end
   end.
